@@ -5,10 +5,26 @@
    the snippet's definition in its place; attributes, text, repeaters and the self-closing mark written
    on the alias are applied to the top-level elements of the definition and children go into its deepest
    element.  Resolution terminates for every snippet table, including self-referencing and mutually
-   recursive user snippets, with nesting no deeper than the number of snippets. *)
+   recursive user snippets, with nesting no deeper than the number of snippets.
+
+   State.  Termination / depth: for ALL tables (first block).  alias = definition:
+   * for ALL tables and every key whose definition does not reach itself (self_free, exact and decidable):
+     C14_alias_eq_definition (markup_parse and expand of the key alone = of the definition text), and the
+     decorated alias as theorems about walk_resolve against the definition RESOLVED IN PLACE
+     (C14_alias_decorated / _attributes / _repeat / _text / _self_closing / _children), plus the strings `k>c`,
+     `k+c`, `k.c`, `k#c` on the alias side;
+   * the two-snippet cycle of C14_cyclic_cut_refuted shows why the hypothesis is there;
+   * complete sweep of the built-in tables (which contain self-references such as a = a[href]) at string level.
+   NOT proved for all tables: the decorated forms with the definition written textually in place
+   (`d>c`, `(d)*N`, the attributes written into d): that `parse(d>c)` is `parse(d)` with c under find_deepest
+   needs the side conditions of the code -- d ends with an element, not a text node (the converter makes
+   the children of a text-only node its siblings), no repeater on the last-child chain (`x*2>b` repeats b), no
+   group at the end, no alias on the chain that resolves to nothing -- and a compositionality theorem for
+   tokenizer + parser + converter that is not done; these forms are covered by the sweep (built-in tables)
+   and by the random user tables of the harness. *)
 From Emmet Require Import lib.Base model.MarkupTokenizer model.MarkupParser model.MarkupConvert
      model.MarkupResolve model.MarkupExpand proofs.SnippetProofs proofs.SnippetSweep
-     proofs.SnippetAcyclic proofs.SnippetAliasParse.
+     proofs.SnippetAcyclic proofs.SnippetAliasParse proofs.SnippetAliasForms.
 
 (* termination, for ALL snippet tables and ALL trees: with the fuel markup_parse supplies
    (number of snippets + 1) the resolver never reports OutOfFuel *)
@@ -276,6 +292,54 @@ Theorem C14_alias_children :
     end.
 Proof. exact alias_children. Qed.
 Print Assumptions C14_alias_children.
+
+(* the decorated alias as a STRING, alias side (k, c key texts; the child / sibling c may itself be an
+   alias): what markup_parse makes of `k>c`, `k+c`, `k.c`, `k#c` in terms of the definition resolved in
+   place.  (With jsx on, `K.C` is a member name, hence jsx off for the class form.) *)
+Theorem C14_alias_child_string :
+  forall (cfg : mconfig) (k c d : str),
+    key_text k = true -> key_text c = true ->
+    def_of cfg (Some k) = Some d -> self_free cfg d = true -> mc_text cfg = WNone ->
+    markup_parse cfg (k ++ c_gt :: c) =
+    let* resolved := resolve_def cfg d in
+    match resolved with
+    | [] => Ok []
+    | _ :: _ => let* kids := walk_resolve (full_fuel cfg) cfg [] [bare c] in
+                transform_list cfg (attach_deepest resolved kids)
+    end.
+Proof. exact alias_child_string. Qed.
+Print Assumptions C14_alias_child_string.
+
+Theorem C14_alias_sibling_string :
+  forall (cfg : mconfig) (k c d : str),
+    key_text k = true -> key_text c = true ->
+    def_of cfg (Some k) = Some d -> self_free cfg d = true -> mc_text cfg = WNone ->
+    markup_parse cfg (k ++ c_plus :: c) =
+    let* a := resolve_def cfg d in
+    let* b := walk_resolve (full_fuel cfg) cfg [] [bare c] in
+    transform_list cfg (a ++ b).
+Proof. exact alias_sibling_string. Qed.
+Print Assumptions C14_alias_sibling_string.
+
+Theorem C14_alias_class_string :
+  forall (cfg : mconfig) (k c d : str),
+    key_text k = true -> key_text c = true -> mc_jsx cfg = false ->
+    def_of cfg (Some k) = Some d -> self_free cfg d = true -> mc_text cfg = WNone ->
+    markup_parse cfg (k ++ c_dot :: c) =
+    let* resolved := resolve_def cfg d in
+    transform_list cfg (map (add_attrs (mc_reverse_attrs cfg) [short_attr s_class c]) resolved).
+Proof. exact alias_class_string. Qed.
+Print Assumptions C14_alias_class_string.
+
+Theorem C14_alias_id_string :
+  forall (cfg : mconfig) (k c d : str),
+    key_text k = true -> key_text c = true -> mc_jsx cfg = false ->
+    def_of cfg (Some k) = Some d -> self_free cfg d = true -> mc_text cfg = WNone ->
+    markup_parse cfg (k ++ c_hash :: c) =
+    let* resolved := resolve_def cfg d in
+    transform_list cfg (map (add_attrs (mc_reverse_attrs cfg) [short_attr s_id c]) resolved).
+Proof. exact alias_id_string. Qed.
+Print Assumptions C14_alias_id_string.
 
 (* an alias inside a larger abbreviation: siblings resolve independently (with C14_non_alias_kept for
    the ancestors this places the theorems above at any position below non-alias elements) *)
